@@ -113,11 +113,11 @@ Fixpoint image (t : term) : bool :=
   | Op (OEnumEmbed _) [a] => image a
   | Op (ONamed n) args =>
       forallb image args
-      && (if String.eqb n "bool/not" then Nat.eqb (length args) 1
-          else if String.eqb n "record/get" then
-            match args with [Chunks cs; _] => has_expr cs | _ => false end
-          else if mem_string n infix_ops then Nat.eqb (length args) 2
-          else existsb (fun e => String.eqb (fst (snd e)) n && Nat.eqb (snd (snd e)) (length args)) primops)
+      && ((String.eqb n "bool/not" && Nat.eqb (length args) 1)
+          || (String.eqb n "record/get"
+              && match args with [Chunks cs; _] => has_expr cs | _ => false end)
+          || (mem_string n infix_ops && negb (String.eqb n "record/get") && Nat.eqb (length args) 2)
+          || existsb (fun e => String.eqb (fst (snd e)) n && Nat.eqb (snd (snd e)) (length args)) primops)
   | Op _ _ => false
   | Annot a inner => negb (match a_typ a, a_ctrs a with None, [] => true | _, _ => false end)
                      && image_annot_with image_ty a && image inner
